@@ -723,10 +723,11 @@ def w_prim(item, F=None, mutants=None, patch=None):
         nat = patch(nat)
 
     def block(w):           # every multiple of a found order violates the clause as a consequence of that order
-        return z3.URem(e, z3.BitVecVal(w["e"], W)) != 0
+        # (written as disequalities: a remainder circuit in the blocking clause costs the solver far more)
+        return z3.And([e != z3.BitVecVal(k * w["e"], W) for k in range(1, full // max(1, w["e"]) + 1)])
 
     return e2.obligations(PID, item["clause"], item["config"], I, lambda: I.call(law_prim_lower, [F, e2.SI(e)]), vs, assume, nat, tally,
-                          text=f"alpha^e != 1 for all 1 <= e < 2^{m} - 1, alpha = F.primitive_element()", timeout_s=tier(100, 400), block_of=block,
+                          text=f"alpha^e != 1 for all 1 <= e < 2^{m} - 1, alpha = F.primitive_element()", timeout_s=tier(240, 500), block_of=block,
                           cross_check=cross_pick(item["clause"] + item["config"]),
                           describe=lambda w, info: f"FiniteBifield({m}).primitive_element() has multiplicative order {w['e']} < 2^{m} - 1 = {full}: alpha^{w['e']} = 1 (modulus {bin(F.modulus.value)} is not primitive)")
 
